@@ -74,7 +74,29 @@ CLAIM = {
             '_solve_finalize stream reduction, the MaxSINR update formulas (only the generic clauses), the \'fix\' '
             'initialisation mode, GreedStream/BruteForce wrappers, the channel class itself (C08).  max-SINR / MMSE are '
             'exercised with a positive noise variance (their covariances are singular without noise when there are few '
-            'interferers).  Closed form (directly, use_best_init True/False, and as the closed_form initialisation of every '
+            'interferers).  '
+            'ROBUSTNESS CLASSES R8-R14.  R8 argument forms: randomizeF / solve / set_precoders / set_receive_filters / the '
+            'constructors are called positionally, by keyword, mixed, with defaults left out or given explicitly as None, P '
+            'and Ns as scalar / 0-d / length-1 (K = 1); by theorem filter_setter_forms_agree (set_receive_filters(W=X) and '
+            '(W_H=X^H) are interchangeable under every later history; the twin object of the oracle always uses the other form); '
+            'calc_SINR_in_dB vs calc_SINR, calc_sum_capacity vs calc_SINR, calc_Q vs channel.calc_Q, default vs explicit Qk '
+            'by oracle; the only constructor parameter (use_best_init) has no setter.  R9 counts / indexes: Ns, '
+            'max_iterations, the user index of calc_Q / calc_Q_rev / calc_remaining_interference_percentage as python int, '
+            'np.int8..int64, uintN, intp, 0-d array, use_best_init as numpy bool / 0-1 int, max_iterations 257 / 300; '
+            'correspondence and oracle only (the model is a function of the logical value).  R10 heterogeneous collections: '
+            'per-user matrices of different dtype / layout / python type (nested lists) in one call, mixed int / float / '
+            'numpy-scalar lists for P and Ns; correspondence and oracle only.  R11 non-mutating API: by theorem '
+            '(passive_calls_never_change_later_results, equivalent_objects_behave_identically: getters, queries and copies at '
+            'any point of any history change no later output; ObsEq bisimulation) + correspondence (the model ignores '
+            'queries, all later outputs must still agree) + oracle (configuration before / after, twin object that never '
+            'makes the calls).  R12 order independence of containers: does NOT apply (users, streams and filters are '
+            'positional by documented index; the solvers hold no dict / set / named containers).  R13 derived objects: '
+            'deepcopy / copy.copy / pickle round trip in the middle of histories, the history goes on with the derived '
+            'object, the parent must stay what it was; model op fork (theorem as for R11) + correspondence + oracle; after a '
+            'fork the numeric result of a later solve is not compared bitwise (another memory layout legitimately selects '
+            'another eigenvector of an under-determined system).  R14 counts: K = 257 users in every quick run, 258 / 300 / '
+            '257 with a min-leakage solve in thorough, max_iterations 257 / 300; the theorems hold for every K.  '
+            'Closed form (directly, use_best_init True/False, and as the closed_form initialisation of every '
             'iterative solver): exercised for N = 2..8 and EVERY Ns in 1..N/2 (its domain: 3 users, one antenna count, N - Ns >= '
             'Ns; the code needs square channels; above N/2 perfect nulling is impossible), with the stream-shape clause '
             '(W_H / full_W_H rows = Ns, F columns = Ns) and the nulling of all six cross links checked there.',
@@ -511,7 +533,10 @@ def vary_count(n, ty):
         return np.array(int(n))
     if ty == 'bool':
         return bool(n)
-    return getattr(np, ty[3:])(n)
+    t = getattr(np, ty[3:])
+    if int(n) > np.iinfo(t).max:        # a value above 255 / 32767 needs a wider type
+        t = np.int64
+    return t(n)
 
 
 COUNT_TYPES = ['np:' + t for t in INT_SCALARS] + ['np:intp', 'np:uint32', 'np:uint64', '0d']
@@ -811,15 +836,15 @@ class Hist:
             elif kind == 'rip':
                 r = s.calc_remaining_interference_percentage(k=kk) if form == 'kw' else \
                     s.calc_remaining_interference_percentage(kk)
-                q = copy.deepcopy(s)
-                r2 = q.calc_remaining_interference_percentage(int(k), q.calc_Q(int(k)))    # Qk given explicitly
-                if not rel_close(float(np.real(r)), float(np.real(r2)), 1e-9):
+                r2 = s.calc_remaining_interference_percentage(int(k), s.calc_Q(int(k)))    # Qk given explicitly
+                a, b = float(np.real(r)), float(np.real(r2))
+                if not ((math.isnan(a) and math.isnan(b)) or abs(a - b) <= 1e-9):      # a fraction in [0, 1]
                     self.pair_fail = ('equivalent-calls-differ:remaining_interference', 'default Qk vs explicit Qk: %r vs %r' % (r, r2))
             elif kind == 'sinr':
                 s.calc_SINR()
             elif kind == 'sinrdB':
                 db = s.calc_SINR_in_dB()
-                lin = copy.deepcopy(s).calc_SINR()
+                lin = s.calc_SINR()        # the same object: a perfectly nulled SINR is rounding noise of the layout
                 for a, b in zip(db, lin):
                     with np.errstate(all='ignore'):
                         e = 10.0 * np.log10(np.asarray(b, dtype=float))
@@ -828,7 +853,7 @@ class Hist:
                         self.pair_fail = ('equivalent-calls-differ:SINR_in_dB', 'calc_SINR_in_dB != 10 log10(calc_SINR)')
             elif kind == 'cap':
                 c = s.calc_sum_capacity()
-                lin = copy.deepcopy(s).calc_SINR()
+                lin = s.calc_SINR()
                 with np.errstate(all='ignore'):
                     e = float(sum(np.sum(np.log2(1.0 + np.asarray(b, dtype=float))) for b in lin))
                 if np.isfinite(e) and not rel_close(float(c), e, 1e-9):
@@ -1305,7 +1330,17 @@ def correspond_histories(ctx, cases):
     drv = core.Driver(DRIVER)
     runs = []
     for case in cases:
-        h = Hist(case).run()
+        try:
+            h = Hist(case).run()
+        except core.Infra:
+            raise
+        except Exception as e:
+            # an exception escaping the library wrappers on an input the property covers is a failing input
+            ctx.fail('history', 'library-exception:' + type(e).__name__, case, repr(e)[:300])
+            continue
+        if h.pair_fail is not None:
+            ctx.corr('history.R8-equivalent-calls', case, h.pair_fail[0] + ': ' + h.pair_fail[1], 'agree',
+                     key=('histR8', repr(case)))
         runs.append(h)
     lines = [h.line() for h in runs]
     replies = []
@@ -1599,6 +1634,20 @@ def o_history(case):
                         'op %d: solve raised %s' % (i, out[1]))
             if h.aborted is not None:
                 return None
+        # ---- a call whose arguments are all in the documented domain is accepted, and the power it gives is the
+        # power in force afterwards
+        if name in ('setP', 'rand') and parg_valid(op[1] if name == 'setP' else op[2], K) and out[0] == 'err':
+            return ('accepted-argument-rejected:%s%s' % (name, sfx), 'op %d: %s raised %s for valid arguments' % (i, name, out[1]))
+        if name == 'setinit' and init_accepted(h.kind, op[1]) and out[0] == 'err':
+            return 'accepted-argument-rejected:setinit', 'op %d: initialize_with = %r raised %s' % (i, op[1], out[1])
+        if out[0] != 'err' and name in ('setP', 'rand', 'solve', 'setprec'):
+            given = op[1] if name == 'setP' else (op[2] if name in ('rand', 'solve') else
+                                                  (('v', op[1]['P']) if op[1].get('P') is not None else 'keep'))
+            if given != 'keep':
+                want = parg_vec(given, K)
+                got = [float(x) for x in np.asarray(h.s.P, dtype=float).reshape(-1)]
+                if got != want:
+                    return ('power-not-stored:%s%s' % (name, sfx), 'op %d: P given %r, P afterwards %r' % (i, want[:4], got[:4]))
         if rejected:
             # what the harness itself does around the call (mode selection, seeding) also happens on the twin
             if name == 'solve':
@@ -1630,6 +1679,12 @@ def o_history(case):
                 op2 = ['setfilt', dict(op[1], which='WH' if op[1]['which'] == 'W' else 'W')]
             out2 = twin.do(op2)
             twin.outs.append(out2)
+            if name == 'solve' and h.parents and out[0] == 'unit' and out2[0] == 'unit':
+                # after a copy / pickle round trip the arrays have another memory layout; the eigenvector kernels
+                # of an under-determined system (null space larger than Ns) then legitimately pick another solution.
+                # The numeric content of solve is not the subject here: the twin goes on with the same solution.
+                for fld in FIELDS:
+                    setattr(twin.s, fld, copy.deepcopy(getattr(h.s, fld)))
             if not outs_equal(out, out2):
                 why = ('after-rejected:' + skipped) if skipped else (
                     ('after-passive:' + passive) if passive else ('shared-channel' if other.log else 'not-reproducible'))
@@ -1708,7 +1763,10 @@ def o_history(case):
             o1, o2 = h.do(fin), fresh.do(fin)
             if o1[0] == 'err':
                 return 'solve-raises:%s:after-history' % h.kind, 'the final solve raised %s' % o1[1]
-            for g in ('rFF', 'rFWH', 'rNs', 'rP'):
+            r = check_relations(copy.deepcopy(h.s), h.ch, K, h.kind != 'mmse', h.kind, strict_shapes=True)
+            if r is not None:
+                return '%s-after:final-solve' % r[0], r[1]
+            for g in (('rNs', 'rP') if h.parents else ('rFF', 'rFWH', 'rNs', 'rP')):
                 a, b = h.do([g]), fresh.do([g])
                 if not outs_equal(a, b, 1e-9):
                     return ('long-lived-object-differs-from-fresh-object:%s' % h.kind,
@@ -1823,12 +1881,17 @@ def o_solve(case):
     ns = case['Ns']
     kind = case['solver']
     ch = case_channel(case)
-    s = make_solver(kind, ch, best=case.get('best', False))
+    s = make_solver(kind, ch, best=case.get('best', False), ctor=case.get('ctor'))
     if kind != 'closed':
-        s.max_iterations = case['iters']
+        s.max_iterations = vary_count(case['iters'], case.get('iters_ty'))
         s.initialize_with = case['init']
     seed_solver(s, case['seed'])
-    tags = sorted(t for t in (ns_tag(case.get('ns_arg')), parg_tag(case['P'])) if t)
+    tags = sorted(t for t in (ns_tag(case.get('ns_arg')), parg_tag(case['P']),
+                              ('R8:ctor:' + case['ctor']) if case.get('ctor') in ('pos', 'allkw', 'default') else None,
+                              ('R9:ctor:' + case['ctor']) if case.get('ctor') in ('npbool', 'int') else None,
+                              ('R9:iters:' + case['iters_ty']) if case.get('iters_ty') else None,
+                              ('R8:form:' + case['form']) if case.get('form') else None,
+                              'R14:iters>=257' if case.get('iters', 0) >= 257 else None) if t)
     cls_sfx = ('Ns>=2' if max(ns) >= 2 else 'Ns=1') + (('[' + ','.join(tags) + ']') if tags else '')
     if kind == 'closed' or case.get('init') == 'closed_form':
         # the closed form (directly or as the initialisation): below N/2 streams the interference-free subspace is
@@ -1842,9 +1905,17 @@ def o_solve(case):
     snaps = [(lab, obj, freeze(obj)) for lab, obj in (('Ns', nsarg), ('P', parg)) if isinstance(obj, (np.ndarray, list, tuple))]
     chan0 = np.array(ch.big_H, copy=True)
     try:
-        s.solve(nsarg, parg)
+        call_ns_p(s.solve, nsarg, parg, case.get('form'))
     except Exception as e:
         return 'solve-raises:%s:%s' % (kind, cls_sfx), '%s: %s' % (type(e).__name__, str(e)[:120])
+    if kind == 'closed' and case.get('ctor') in ('npbool', 'int', 'pos', 'allkw', 'default'):
+        # class R8 / R9: however the flag was given, the solution is that of the plainly constructed solver
+        ref = make_solver(kind, case_channel(case), best=bool(case.get('best', False)))
+        seed_solver(ref, case['seed'])
+        ref.solve(np.array(ns, dtype=int), parg_py(case['P']))
+        if not all(mat_close(a, b, 1e-9) for a, b in zip(s.F, ref.F)):
+            return ('constructor-form-changes-solution:closed:%s' % case['ctor'],
+                    'use_best_init=%r given as %s gives other precoders than the plain bool' % (case.get('best'), case['ctor']))
     for lab, obj, snap in snaps:
         if not same_frozen(freeze(obj), snap):
             return 'argument-modified:solve:%s' % lab, 'solve changed its argument %s' % lab
@@ -1863,6 +1934,24 @@ def o_solve(case):
         r = ('getter-raises', '%s: %s' % (type(e).__name__, str(e)[:100]))
     if r is not None:
         return '%s:%s:%s' % (r[0], kind, cls_sfx), r[1]
+    # class R9: the index-taking queries give the same result for every integer type of the index
+    kq = case['seed'] % K
+    for ty in COUNT_TYPES:
+        kk = vary_count(kq, ty)
+        try:
+            q = copy.deepcopy(s)
+            if not mat_close(q.calc_Q(kk), copy.deepcopy(s).calc_Q(kq), 1e-12):
+                return 'index-type-changes-result:calc_Q[%s]' % ty, 'calc_Q(%r) != calc_Q(%d)' % (kk, kq)
+            if kind in ('minleak', 'maxsinr', 'closed') and s._W is not None and \
+                    all(abs(fro(w) - 1.0) < 1e-9 for w in s._W):
+                if not mat_close(q.calc_Q_rev(kk), copy.deepcopy(s).calc_Q_rev(kq), 1e-12):
+                    return 'index-type-changes-result:calc_Q_rev[%s]' % ty, 'calc_Q_rev(%r) != calc_Q_rev(%d)' % (kk, kq)
+            a = float(np.real(q.calc_remaining_interference_percentage(kk)))
+            b = float(np.real(copy.deepcopy(s).calc_remaining_interference_percentage(kq)))
+            if not ((math.isnan(a) and math.isnan(b)) or abs(a - b) <= 1e-9):
+                return 'index-type-changes-result:remaining_interference[%s]' % ty, '%r vs %r' % (a, b)
+        except Exception as e:
+            return 'query-raises:%s[%s]' % (kind, ty), 'index %r: %s: %s' % (kk, type(e).__name__, str(e)[:100])
     W = s.W
     for k in range(K):
         if W[k].shape != (Nr[k], after[k]) or s.F[k].shape != (Nt[k], after[k]) \
@@ -1914,6 +2003,8 @@ def case_classes(case):
     if case['K'] >= 257 or case.get('iters', 0) >= 257:
         out.add('R14')
     if 'ops' not in case:       # solve / monotone case
+        if case.get('form'):
+            out.add('R8')
         tags += [ns_tag(case.get('ns_arg')), parg_tag(case['P']) if isinstance(case.get('P'), (tuple, list)) else None]
         pws += power_values(case['P']) if isinstance(case.get('P'), (tuple, list)) else [case.get('P') or 1.0]
     else:
@@ -2005,6 +2096,8 @@ def run_oracle(ctx, call, case, key=None):
     ctx.count((call, key if key is not None else repr(case)))
     for c in case_classes(case):
         ctx.branch('oracle:' + c)
+    if call == 'solve':
+        ctx.branch('oracle:R9')
     if call in ('solve', 'monotone') and (case['solver'] == 'closed' or case.get('init') == 'closed_form'):
         ctx.branch('oracle:closed-form:Ns<N/2' if 2 * case['Ns'][0] < case['Nr'][0] else 'oracle:closed-form:Ns=N/2')
     if call == 'history':
@@ -2068,6 +2161,18 @@ def gen_solve_case(rng, kind=None):
     if rng.chance(0.35):
         v = ns[0] if len(set(ns)) == 1 and rng.chance(0.5) else ns
         case['ns_arg'] = vary_ns(rng, v)
+    if kind == 'closed' and rng.chance(0.5):
+        case['ctor'] = rng.choice(['pos', 'allkw', 'default', 'npbool', 'int'])
+        if case['ctor'] == 'default':
+            case['best'] = True
+    elif kind != 'closed' and rng.chance(0.15):
+        case['ctor'] = 'allkw'
+    if kind != 'closed' and rng.chance(0.3):
+        case['iters_ty'] = rng.choice(COUNT_TYPES)
+    if rng.chance(0.4):
+        case['form'] = rng.choice(['kw', 'mixed', 'kwrev', 'default' if case['P'] is None else 'kw'])
+    if kind in ('minleak', 'altmin') and rng.chance(0.03):
+        case['iters'] = rng.choice([257, 300])        # class R14: a count above 256
     if rng.chance(0.2):
         case['chan_ty'] = rng.choice(['fortran', 'transposed', 'strided', 'reversed'])
     return case
@@ -2299,6 +2404,8 @@ def correspond_formulas_closed(ctx, n):
     # ---- closed form chain
     for it in range(max(3, n // 3)):
         nn, cns = gen_cf_dims(rng)
+        if it < 2:          # both required strata are always reached
+            nn, cns = ((4, 2), (5, 1))[it]
         seed = rng.below(2 ** 31)
         ch = build_channel(3, [nn] * 3, [nn] * 3, seed)
         c = make_solver('closed', ch)
@@ -2407,8 +2514,9 @@ def check(ctx):
     core.prove(ctx, MODULE, drivers=[DRIVER], scratch=ctx.scratch)
     ctx.required_branches = ['op:setP', 'op:rand', 'op:setprec', 'op:setfilt', 'op:solve', 'op:clear', 'op:rFWH',
                              'op:rFW', 'op:rFF', 'op:setinit', 'out:err:ValueError', 'out:err:RuntimeError',
-                             'out:err:TypeError'] + ['corr:R%d' % i for i in range(1, 8)] + [
-                             'oracle:R%d' % i for i in range(1, 8)] + ['formula:scale', 'formula:closed:Ns<N/2',
+                             'out:err:TypeError', 'op:query', 'op:fork'] + [
+                             'corr:R%d' % i for i in (1, 2, 3, 4, 5, 6, 7, 8, 9, 10, 11, 13, 14)] + [
+                             'oracle:R%d' % i for i in (1, 2, 3, 4, 5, 6, 7, 8, 9, 10, 11, 13, 14)] + ['formula:scale', 'formula:closed:Ns<N/2',
                              'formula:closed:Ns=N/2', 'oracle:closed-form:Ns<N/2', 'oracle:closed-form:Ns=N/2',
                              'formula:system', 'formula:closed', 'formula:store', 'oracle-ok:solve',
                              'oracle-ok:monotone', 'oracle-ok:history']
@@ -2416,7 +2524,12 @@ def check(ctx):
     nf = 15 if quick else 300
     nsolve = 100 if quick else 4000
     nmono = 50 if quick else 2000
-    cases = list(CORPUS_HISTORIES) + [gen_history(ctx.rng, ctx.tier) for _ in range(nh)]
+    # class R14: hundreds of users (one case per quick run, a few in thorough)
+    many = [gen_many_users(ctx.rng, 257, 'base')]
+    if not quick:
+        many += [gen_many_users(ctx.rng, 258, 'base'), gen_many_users(ctx.rng, 300, 'base'),
+                 gen_many_users(ctx.rng, 257, 'minleak')]
+    cases = list(CORPUS_HISTORIES) + many + [gen_history(ctx.rng, ctx.tier) for _ in range(nh)]
     try:
         correspond_histories(ctx, cases)
         correspond_formulas(ctx, nf)
@@ -2429,9 +2542,10 @@ def check(ctx):
     for call, case in corpus_cases():
         run_oracle(ctx, call, case)
         ctx.branch('corpus')
-    for case in CORPUS_HISTORIES:
+    for case in CORPUS_HISTORIES + many[:1 if quick else 2]:
         run_oracle(ctx, 'history', case)
-    for case in cases[len(CORPUS_HISTORIES):len(CORPUS_HISTORIES) + (nh if quick else nh // 4)]:
+    first = len(CORPUS_HISTORIES) + len(many)
+    for case in cases[first:first + (nh if quick else nh // 4)]:
         run_oracle(ctx, 'history', case)
     for kind in SOLVERS:
         for _ in range(nsolve // len(SOLVERS)):
